@@ -249,6 +249,8 @@ pub struct World {
     pub dgrams: Vec<Dgram>,
     pub txlog: Vec<TxRec>,
     pub handled: Vec<HandleRec>,
+    /// (server connection, datagram that created its Incoming, address validated by a token)
+    pub accepts: Vec<(u32, u32, bool)>,
     pub waiting: Vec<Option<Waiting>>,
     pub dirty: Vec<u32>,
     pub violations: Vec<Violation>,
@@ -336,6 +338,7 @@ impl World {
             dgrams: Vec::new(),
             txlog: Vec::new(),
             handled: Vec::new(),
+            accepts: Vec::new(),
             waiting: Vec::new(),
             dirty: Vec::new(),
             violations: Vec::new(),
@@ -834,8 +837,10 @@ impl World {
                 let inc = self.conns.len() as u32;
                 self.enter(node, inc);
                 let pk_from = self.tap.lock().unwrap().pkts.len();
+                let token_validated = incoming.remote_address_validated();
                 match self.nodes[node as usize].ep.accept(incoming, now, &mut buf, cfg) {
                     Ok((ch, conn)) => {
+                        self.accepts.push((inc, dgram, token_validated));
                         self.nodes[node as usize].by_handle.insert(ch.0, inc);
                         let peer = self.dgrams[dgram as usize].origin_inc;
                         self.conns.push(Conn {
